@@ -358,6 +358,15 @@ func (c *Context) Quo(d, x, y *Decimal) (Condition, error) {
 				// setExponent.
 				nd = unknownNumDigits
 			}
+		} else {
+			// The quotient is subnormal and is rounded at Etiny by
+			// setExponent, which always discards at least its last digit.
+			// Append a non-zero guard digit so that the discarded remainder
+			// takes part in that rounding and Inexact is raised.
+			d.Coeff.Mul(&d.Coeff, bigTen)
+			d.Coeff.Add(&d.Coeff, bigOne)
+			adjExp10++
+			nd++
 		}
 	}
 
